@@ -10,6 +10,9 @@
                    abund  natural abundance, parts per billion
      D.idx       the nine dictionaries byName .. byAAAZZZSId as functions  identifier -> row number (0: the stored object is
                  not in instances)
+     D.special   TRUE iff updateNuclideBasesForSpecialCases has been applied (always, for the finished directory)
+     D.relabelled set of row numbers whose label changeLabel replaced (the label is then whatever the ISOTXS file called it)
+     D.stale     set of <<identifier column, key>>: former identifiers that changeLabel left behind as keys (none in a fresh process)
      D.elements  sequence of [key, z, symbol, name, members, natural, bySymbol, byName]: elements.byZ in order; members =
                  Element.nuclides and natural = Element.getNaturalIsotopics() as row numbers; bySymbol / byName = position of
                  the element that elements.bySymbol[symbol] / elements.byName[name] return
@@ -31,7 +34,7 @@
                                                                 ElementsIndexed  byZ key = z, bySymbol / byName return the same
                                                                                  element, symbol = periodic table
      "natural abundances sum to one or the element has none"    Abundance        |sum over isotopes (a > 0) - 1e9| <= AbundTol or = 0
-     "every burn-chain product exists, branching in [0,1]"      BurnChain        (module BurnChain below, same record style) *)
+     "every burn-chain product exists, branching in [0,1]"      BurnChain        file entries and imposed entries *)
 EXTENDS NuclideIds, SequencesExt, FiniteSetsExt, Functions
 
 IdCols == <<"name", "db", "label", "mcc2", "mcc3", "mcc3v0", "mcc3v1", "mcnp", "azs">>
@@ -44,22 +47,25 @@ ColSet == { IdCols[j] : j \in 1..Len(IdCols) }
 AbundTol == 100000
 Unit == 1000000000
 
-Fail(clause, col, who, detail) == [clause |-> clause, col |-> col, who |-> who, detail |-> detail]
+(* detail is rendered as a string: failure records of different clauses live in one set and must be comparable *)
+Fail(clause, col, who, detail) == [clause |-> clause, col |-> col, who |-> who, detail |-> ToString(detail)]
 
 N(D) == Len(D.rows)
 Idx(D, c) == D.idx[IndexOf[c]]
 
 (* ---- row clauses ------------------------------------------------------------------------------------------------------ *)
-Retrievable(D, lo, hi) ==
-    { Fail("Retrievable", c, D.rows[i].name, D.rows[i][c]) : <<i, c>> \in
-        { p \in (lo..hi) \X ColSet : D.rows[p[1]][p[2]] # "" /\ D.rows[p[1]][p[2]] \notin DOMAIN Idx(D, p[2]) } }
+RetrievableCol(D, lo, hi, c) ==
+    LET dom == DOMAIN Idx(D, c)
+    IN  { Fail("Retrievable", c, D.rows[i].name, D.rows[i][c]) : i \in { j \in lo..hi : D.rows[j][c] # "" /\ D.rows[j][c] \notin dom } }
+Retrievable(D, lo, hi) == UNION { RetrievableCol(D, lo, hi, c) : c \in ColSet }
 
-LookupSame(D, lo, hi) ==
-    { Fail("LookupSame", c, D.rows[i].name,
-           [id |-> D.rows[i][c], returns |-> IF Idx(D, c)[D.rows[i][c]] \in 1..N(D) THEN D.rows[Idx(D, c)[D.rows[i][c]]].name ELSE "?"]) :
-      <<i, c>> \in { p \in (lo..hi) \X ColSet : /\ D.rows[p[1]][p[2]] # ""
-                                                /\ D.rows[p[1]][p[2]] \in DOMAIN Idx(D, p[2])
-                                                /\ Idx(D, p[2])[D.rows[p[1]][p[2]]] # p[1] } }
+LookupSameCol(D, lo, hi, c) ==
+    LET f == Idx(D, c)
+        dom == DOMAIN f
+    IN  { Fail("LookupSame", c, D.rows[i].name,
+               [id |-> D.rows[i][c], returns |-> IF f[D.rows[i][c]] \in 1..N(D) THEN D.rows[f[D.rows[i][c]]].name ELSE "?"]) :
+          i \in { j \in lo..hi : D.rows[j][c] # "" /\ D.rows[j][c] \in dom /\ f[D.rows[j][c]] # j } }
+LookupSame(D, lo, hi) == UNION { LookupSameCol(D, lo, hi, c) : c \in ColSet }
 
 (* which identifiers a nuclide of each kind has: every nuclide a name, a database name and a label; isotopes and natural
    elements an MCNP identifier; isotopes an AAAZZZS identifier (IMcnpNuclide is implemented by NuclideBase and NaturalNuclideBase,
@@ -80,8 +86,9 @@ SpecialOf(r) == { sp \in Specials : sp.name = r.name /\ sp.kind = r.kind }
 KindOK(r) == \/ r.kind = "nuclide" /\ r.z \in 1..ZReal /\ r.a \in 1..999 /\ r.s \in 0..MaxState
              \/ r.kind = "natural" /\ r.z \in 1..ZReal /\ r.a = 0 /\ r.s = 0
              \/ r.kind \in {"dummy", "lump"} /\ r.a = 0 /\ r.s = 0 /\ SpecialOf(r) # {} /\ \A sp \in SpecialOf(r) : sp.z = r.z
-Expected(r) ==
-    CASE r.kind = "nuclide" -> [name |-> NameOf(r.z, r.a, r.s), db |-> DbNameOf(r.z, r.a, r.s), label |-> LabelOf(r.z, r.a, r.s),
+Expected(D, r) ==
+    CASE r.kind = "nuclide" -> [name |-> IF D.special THEN NameOf(r.z, r.a, r.s) ELSE RawNameOf(r.z, r.a, r.s),
+                                db |-> IF D.special THEN DbNameOf(r.z, r.a, r.s) ELSE RawDbNameOf(r.z, r.a, r.s), label |-> LabelOf(r.z, r.a, r.s),
                                 mcnp |-> McnpOf(r.z, r.a, r.s), azs |-> AzsOf(r.z, r.a, r.s), mcc3 |-> Mcc3Of(r.z, r.a, r.s)]
       [] r.kind = "natural" -> [name |-> NatNameOf(r.z), db |-> NatDbNameOf(r.z), label |-> NatNameOf(r.z),
                                 mcnp |-> NatMcnpOf(r.z), azs |-> "", mcc3 |-> Mcc3Of(r.z, 0, 0)]
@@ -94,11 +101,12 @@ Encodes(D, lo, hi) ==
     { Fail("Encodes", "kind", D.rows[i].name, [kind |-> D.rows[i].kind, z |-> D.rows[i].z, a |-> D.rows[i].a, s |-> D.rows[i].s]) :
         i \in { j \in lo..hi : ~KindOK(D.rows[j]) } }
     \cup
-    { Fail("Encodes", c, D.rows[i].name, [got |-> D.rows[i][c], expected |-> Expected(D.rows[i])[c]]) : <<i, c>> \in
-        { p \in (lo..hi) \X EncodedCols : KindOK(D.rows[p[1]]) /\ D.rows[p[1]][p[2]] # Expected(D.rows[p[1]])[p[2]] } }
+    { Fail("Encodes", c, D.rows[i].name, [got |-> D.rows[i][c], expected |-> Expected(D, D.rows[i])[c]]) : <<i, c>> \in
+        { p \in (lo..hi) \X EncodedCols : /\ KindOK(D.rows[p[1]]) /\ ~(p[2] = "label" /\ p[1] \in D.relabelled)
+                                          /\ D.rows[p[1]][p[2]] # Expected(D, D.rows[p[1]])[p[2]] } }
     \cup
-    { Fail("Encodes", c, D.rows[i].name, [got |-> D.rows[i][c], expected |-> Expected(D.rows[i]).mcc3]) : <<i, c>> \in
-        { p \in (lo..hi) \X Mcc3Cols : KindOK(D.rows[p[1]]) /\ D.rows[p[1]][p[2]] \notin {"", Expected(D.rows[p[1]]).mcc3} } }
+    { Fail("Encodes", c, D.rows[i].name, [got |-> D.rows[i][c], expected |-> Expected(D, D.rows[i]).mcc3]) : <<i, c>> \in
+        { p \in (lo..hi) \X Mcc3Cols : KindOK(D.rows[p[1]]) /\ D.rows[p[1]][p[2]] \notin {"", Expected(D, D.rows[p[1]]).mcc3} } }
 
 ElemAt(D, z) == { j \in 1..Len(D.elements) : D.elements[j].z = z }
 Membership(D, lo, hi) ==
@@ -118,11 +126,12 @@ NoShared(D, c) ==
                  { j \in own : \E k \in own \ {j} : D.rows[k][c] = D.rows[j][c] } }
 
 KeysOwned(D, c) ==
-    { Fail("KeysOwned", c, k, IF Idx(D, c)[k] \in 1..N(D) THEN D.rows[Idx(D, c)[k]].name ELSE "not a nuclide of the directory") :
-        k \in { key \in DOMAIN Idx(D, c) :
-                  \/ Idx(D, c)[key] \notin 1..N(D)
-                  \/ /\ D.rows[Idx(D, c)[key]][c] # key
-                     /\ <<c, key, D.rows[Idx(D, c)[key]].name>> \notin Aliases } }
+    LET f == Idx(D, c)
+    IN  { Fail("KeysOwned", c, k, IF f[k] \in 1..N(D) THEN D.rows[f[k]].name ELSE "not a nuclide of the directory") :
+            k \in { key \in DOMAIN f : \/ f[key] \notin 1..N(D)
+                                       \/ /\ D.rows[f[key]][c] # key
+                                          /\ ~(D.special /\ <<c, key, D.rows[f[key]].name>> \in Aliases)
+                                          /\ <<c, key>> \notin D.stale } }
 
 (* byMcc3Id is documented as "identical to byMcc3IdEndfbVII1" *)
 Mcc3IsV1(D) == IF D.idx.byMcc3Id = D.idx.byMcc3IdEndfbVII1 THEN {} ELSE { Fail("KeysOwned", "mcc3", "byMcc3Id", "differs from byMcc3IdEndfbVII1") }
